@@ -33,6 +33,8 @@ R4 (K1, safety net relied on by C01/C03) Repository.unlock, PackRepository.unloc
    live write group before the last write lock is released.
 R7 (K3) RepositoryPackCollection._commit_write_group: every exceptional exit of autopack() / _save_pack_names() after
    allocate() passes a handler that removes the allocated packs from memory and re-raises.
+R8 (from a third-round agent's observation) in _abort_write_group the loop over the resumed packs is reachable from the exception edge
+   of self._new_pack.abort(): a failing first step does not leave the indices of the resumed packs visible.
 Does not decide: that suspend -> resume -> commit yields the same content as a direct commit (value equality).
 """
 
@@ -320,15 +322,23 @@ def run(ctx):
         if not ok_h:
             uncovered.append(f"L{c.lineno}:{norm(c)}")
     ctx.check("R7-failed-publication-forgets-allocation", w7, not uncovered and min(c.lineno for c in pubs7) > max(c.lineno for c in allocs7), "a failure of autopack() / _save_pack_names() after allocate() passes a handler that removes the allocated packs from memory and re-raises", construct="; ".join(uncovered), message=f"_commit_write_group lets a failure of {uncovered} propagate with the new pack still allocated in memory: the write group is aborted, but the next write group committed through the same repository object writes that pack into pack-names — the revision of a commit that raised becomes visible")
-
+    # ---- R8: an abort forgets the resumed packs even when aborting the new pack fails ---------------------------------
+    fn8, g8, w8 = fn_cfg(ctx, PR, f"{COLL}._abort_write_group")
+    ab_new = need(w8, calling(g8, attr="abort", recv="self._new_pack"), "self._new_pack.abort()")
+    loops8 = [n.id for n in g8.nodes if n.kind == "for" and norm(n.ast.iter) == "self._resumed_packs"]
+    need(w8, loops8, "loop over self._resumed_packs")
+    xs8 = [b for i in ab_new for (b, l) in g8.succ[i] if l == "X"]
+    ctx.require(bool(xs8), f"{w8}: self._new_pack.abort() has no exception edge in the CFG")
+    ctx.check("R8-abort-reaches-resumed-packs", w8, bool(set(loops8) & g8.reach(xs8, include_src=True)), "when self._new_pack.abort() raises, the loop that removes the resumed packs' indices still runs", message="_abort_write_group leaves through the exception of self._new_pack.abort() without visiting the resumed packs: their indices stay in the in-memory aggregate index, abort_write_group(suppress_errors=True) hides the error, and the repository object keeps reporting the aborted revisions as present although no listed pack holds them")
 
 MUTANTS = [
+    Mutant("abort stops at a failing new pack (fix 52adcff reverted)", PR, "        finally:\n            # Forget the resumed packs even if aborting the new pack failed:\n            # their indices must not stay visible after an abort.\n            for resumed_pack in self._resumed_packs:", "        except BaseException:\n            raise\n        else:\n            for resumed_pack in self._resumed_packs:", expect="R8-abort-reaches-resumed-packs"),
     Mutant("failed publication keeps the allocation", PR, "                for pack in allocated:\n                    current = self._packs_by_name.get(pack.name)\n                    if current is not None and pack.name in self._names:\n                        self._remove_pack_from_memory(current)\n                raise\n", "                raise\n", expect="R7-failed-publication-forgets-allocation"),
     Mutant("key dependencies cleared in a finally", PR, "        hint = self._pack_collection._commit_write_group()\n        self.revisions._index.clear_key_dependencies()\n", "        try:\n            hint = self._pack_collection._commit_write_group()\n        finally:\n            self.revisions._index.clear_key_dependencies()\n", expect="R6-refusal-keeps-tracking"),
     Mutant("resumed packs removed while iterating", PR, "            allocated.append(resumed_pack)\n            any_new_content = True\n        del self._resumed_packs[:]\n", "            allocated.append(resumed_pack)\n            self._resumed_packs.remove(resumed_pack)\n            any_new_content = True\n", expect="R6-resumed-packs-all-handled"),
     Mutant("_check_new_inventories after finish", PR, "        problems = self._check_new_inventories()\n        if problems:\n            problems_summary = \"\\n\".join(problems)\n            raise BzrCheckError(\n                \"Cannot add revision(s) to repository: \" + problems_summary\n            )\n        self._remove_pack_indices(self._new_pack)\n", "        self._remove_pack_indices(self._new_pack)\n        problems = self._check_new_inventories()\n        if problems:\n            problems_summary = \"\\n\".join(problems)\n            raise BzrCheckError(\n                \"Cannot add revision(s) to repository: \" + problems_summary\n            )\n", expect="R1-check-before-change"),
     Mutant("missing compression parents only logged", PR, "        if all_missing:\n            raise BzrCheckError(", "        if all_missing and debug.debug_flag_enabled(\"strict\"):\n            raise BzrCheckError(", expect="R1-refuse-missing-parents"),
-    Mutant("abort skips resumed packs", PR, "                resumed_pack.abort()\n        del self._resumed_packs[:]\n\n    def _remove_resumed_pack_indices", "                pass\n        del self._resumed_packs[:]\n\n    def _remove_resumed_pack_indices", expect="R2-abort-resumed"),
+    Mutant("abort skips resumed packs", PR, "                    resumed_pack.abort()\n            del self._resumed_packs[:]\n\n    def _remove_resumed_pack_indices", "                    pass\n            del self._resumed_packs[:]\n\n    def _remove_resumed_pack_indices", expect="R2-abort-resumed"),
     Mutant("suspend forgets resumed packs' tokens", PR, "        tokens = [pack.name for pack in self._resumed_packs]\n        self._remove_pack_indices(self._new_pack)", "        tokens = []\n        self._remove_pack_indices(self._new_pack)", expect="R2-suspend-tokens"),
     Mutant("suspend finishes as a live pack", PR, "            self._new_pack.finish(suspend=True)\n", "            self._new_pack.finish()\n", expect="R2-suspend-finish"),
     Mutant("abort template failure leaves the group open", RP, "        except Exception as exc:\n            self._write_group = None\n            if not suppress_errors:\n                raise\n", "        except Exception as exc:\n            if not suppress_errors:\n                raise\n", expect="R3-abort-clears-group"),
